@@ -18,15 +18,15 @@ RULE = (
     "every step; distinct = (family, sequence); non-trivial iff the sequence has a prediction before a state-changing operation and "
     "the prediction really changed (> 1e-6) somewhere along the history"
 )
-REQUIRED = ["step_matches_fresh", "final_matches_fresh", "monitor:cache_add", "monitor:clear_cache"]
+REQUIRED = ["step_matches_fresh", "final_matches_fresh", "op_output_matches_fresh", "monitor:cache_add", "monitor:clear_cache"]
 ASSUMPTIONS = [
     "the sequential model is a fresh model of the same class with the same state_dict, data and active settings (both sides run the same algorithm: direct tolerance)",
     "a history in which an OPERATION itself raises (e.g. second backward through a freed graph) is a rejected history, not a violation; kl_divergence() is not in the statement's alphabet",
 ]
 ANCHOR_FILES = ["gpytorch/models/", "gpytorch/module.py", "gpytorch/utils/memoize.py", "gpytorch/variational/", "gpytorch/kernels/grid_interpolation_kernel.py", "gpytorch/kernels/inducing_point_kernel.py", "gpytorch/kernels/grid_kernel.py"]
 
-QUICK_FAMS = ["default", "ski", "sgpr", "batch", "svgp_whitened", "svgp_unwhitened", "lmc_multitask"]
-ALL_FAMS = ["default", "batch", "ski", "ski_dynamic_grid", "sgpr", "svgp_whitened", "svgp_unwhitened", "svgp_meanfield", "svgp_batch_decoupled", "lmc_multitask"]
+QUICK_FAMS = ["default", "default_iterative", "ski", "sgpr", "batch", "svgp_whitened", "svgp_unwhitened", "lmc_multitask"]
+ALL_FAMS = ["default", "default_iterative", "batch", "ski", "ski_dynamic_grid", "sgpr", "svgp_whitened", "svgp_unwhitened", "svgp_meanfield", "svgp_batch_decoupled", "lmc_multitask"]
 STATE_CHANGING = {"train_step", "set_data", "set_targets", "load_sd"}
 EXACT_ALPHA = ["pred", "pred_fpv", "pred_nodetach", "pred_skipvar", "pred_eager", "pred_batch", "train_step", "set_data", "set_targets", "load_sd", "load_sd_same", "fantasy", "prior", "backward", "train_eval"]
 VAR_ALPHA = ["pred", "pred_batch", "pred_skipvar", "pred_eager", "train_step", "load_sd", "load_sd_same", "prior", "backward", "train_eval"]
@@ -51,7 +51,10 @@ def cases(tier, seed):
         if tier == "quick":
             # directed: predict -> state change -> (anything); plus a random sample
             directed = [s for s in all3 if s[0].startswith("pred") and s[1] in STATE_CHANGING]
-            pick = rnd.sample(directed, min(len(directed), 60)) + rnd.sample(all3, 60)
+            # sandwiches: predict under one settings tuple, change the state, predict under another (all pairs)
+            sandwich = [s for s in directed if s[2].startswith("pred")]
+            rest = [s for s in directed if not s[2].startswith("pred")]
+            pick = sandwich + rnd.sample(rest, min(len(rest), 40)) + rnd.sample(all3, 60)
         elif fam in ("default", "sgpr", "ski"):
             pick = all3
         else:
@@ -106,23 +109,31 @@ def _all_module_classes(gpytorch):
 
 
 def run_case(case, ctx):
+    from vf import history as H
+
+    fam = H.FAMILIES[case["family"]](case["mseed"])
+    with fam.context():
+        return _run_case(case, ctx, fam)
+
+
+def _run_case(case, ctx, fam):
     import torch
 
     from vf import history as H
 
-    fam = H.FAMILIES[case["family"]](case["mseed"])
     state = {"fam": fam}
     m = fam.make()
     _ST["events"] = []
     _ST["step"] = -1
-    cfgs = [(False, True, False, True), (True, True, False, True)] if fam.exact else [(False, True, False, True)]
+    cfgs = [(False, True, False, True), (True, True, False, True)] if fam.exact and fam.compare_fpv else [(False, True, False, True)]
     preds = []
     saw_pred_before_change = False
     had_pred = False
     for i, op in enumerate(case["seq"]):
         _ST["step"] = i
+        twin = H.fresh_like(state, m) if op.startswith("pred") else None
         try:
-            H.apply_op(case["family"], m, op, state)
+            out = H.apply_op(case["family"], m, op, state)
         except Exception as e:
             ctx.reject(f"operation raised: {case['family']}:{op}: {type(e).__name__}: {str(e)[:60]}")
             ctx.info["rejected_history:" + type(e).__name__] += 1
@@ -132,6 +143,17 @@ def run_case(case, ctx):
             return
         if op.startswith("pred"):
             had_pred = True
+            # the operation's own output, under the operation's own settings, against a fresh model in the same state
+            try:
+                ref_out = H.apply_op(case["family"], twin, op, state)
+            except Exception:
+                ref_out = None
+            if ref_out is not None and out is not None and (fam.compare_fpv or op != "pred_fpv"):
+                alive = [e for e in _ST["events"] if e[1] == "add"][-12:]
+                ok = ctx.close("op_output_matches_fresh", torch.cat([out[0].reshape(-1), out[1].reshape(-1)]), torch.cat([ref_out[0].reshape(-1), ref_out[1].reshape(-1)]), fam.tol,
+                               cls=case["family"] + ":" + op, step=i, op=op, prefix=case["seq"][: i + 1], cache_events=[list(map(str, e)) for e in alive], detail=f"output of step {i} ({op}) of {case['seq']}")
+                if not ok:
+                    return
         if op in STATE_CHANGING and had_pred:
             saw_pred_before_change = True
         _ST["step"] = i + 0.5
@@ -153,7 +175,7 @@ def run_case(case, ctx):
                 return
             ref = H.predict(fresh, fam.xs, cfg)
             alive = [e for e in _ST["events"] if e[1] == "add"][-12:]
-            ok = ctx.close(mon, torch.cat([got[0].reshape(-1), got[1].reshape(-1)]), torch.cat([ref[0].reshape(-1), ref[1].reshape(-1)]), (1e-7, 1e-7), cls=case["family"] + (":fpv" if cfg[0] else ""),
+            ok = ctx.close(mon, torch.cat([got[0].reshape(-1), got[1].reshape(-1)]), torch.cat([ref[0].reshape(-1), ref[1].reshape(-1)]), fam.tol, cls=case["family"] + (":fpv" if cfg[0] else ""),
                            step=i, op=op, prefix=case["seq"][: i + 1], cache_events=[list(map(str, e)) for e in alive], detail=f"after step {i} ({op}) of {case['seq']}")
             if not ok:
                 return
